@@ -200,6 +200,12 @@ theorem code_gene_draw (r : Iv) (u : Nat) (h1 : In .i32 r.lo) (h2 : In .i32 r.hi
   rw [gen_drawInt r u h1 h2 h]
   exact ⟨rfl, pick_in r u h⟩
 
+/-- `vita::range(m, u)` keeps each endpoint at the type the user wrote it in (the i-th component has the deduced type of
+    the i-th argument and is built from it): no endpoint is converted before the problem / the environment receives
+    it, so the recorded interval is the declared one -/
+theorem code_range_helper :
+    Gen.range = { firstTy := .tparam 0, secondTy := .tparam 1, firstFrom := 0, secondFrom := 1 } := by decide
+
 /-- the generated `init` goes through `random::in(range_)` and the value travels through a double -/
 theorem code_init_shape : Gen.initInt.src = .inRange ∧ Gen.initReal.src = .inRange ∧
     Gen.initInt.elemTy = some .i32 ∧ Gen.initReal.elemTy = none := by decide
